@@ -102,6 +102,7 @@ package car
 //@   loop[0] invariant offset [C03]: sectionOffset == pos(reader) - sbase(reader) - dataOffset
 //@   loop[0] invariant nonneg [C03]: dataOffset >= 0
 //@   loop[0] invariant reader_ok [C03]: objinv(reader)
+//@   loop[0] step every_admitted_section_recorded [C03]: len(records) == athead(0, len(records)) + ite(o.StoreIdentityCIDs || mhtype(c) != 0, 1, 0)
 //@   call[append#0] assert record_offset [C03]: arg1[0].Offset == wrap_u64(athead(0, pos(reader)) - sbase(reader) - dataOffset)
 //@   call[append#0] assert record_cid [C03]: arg1[0].Cid == c
 //@   call[append#0] assert identity_filter [C03]: o.StoreIdentityCIDs || mhtype(c) != 0
